@@ -20,20 +20,33 @@ func VerifC20Option(idx, n int) {
 		verifReach("end")
 		return
 	}
+	verifObserve("encoding", o.ToBytes())
+	verifC20Readers(o, true)
+	verifReach("end")
+}
+
+// verifC20Readers: every read-only method of o's type, results folded into digests, then all of
+// them again in the opposite order: same results, same encoding (compared after every call when
+// fine is set, after each pass otherwise).
+func verifC20Readers(o Option, fine bool) {
 	e0 := o.ToBytes()
-	verifObserve("encoding", e0)
 	nr := verifOptionReaders(o)
 	dg := make([][]byte, nr)
 	for k := 0; k < nr; k++ {
 		dg[k] = verifOptionReader(o, k)
-		verifAssert(verifSame(o.ToBytes(), e0), "reader-leaves-encoding-unchanged")
+		if fine {
+			verifAssert(verifSame(o.ToBytes(), e0), "reader-leaves-encoding-unchanged")
+		}
 	}
+	verifAssert(verifSame(o.ToBytes(), e0), "reader-leaves-encoding-unchanged")
 	// again in the opposite order: same results, same encoding
 	for k := nr - 1; k >= 0; k-- {
 		verifAssert(verifSame(verifOptionReader(o, k), dg[k]), "repeated-calls-return-equal-results")
-		verifAssert(verifSame(o.ToBytes(), e0), "reader-leaves-encoding-unchanged")
+		if fine {
+			verifAssert(verifSame(o.ToBytes(), e0), "reader-leaves-encoding-unchanged")
+		}
 	}
-	verifReach("end")
+	verifAssert(verifSame(o.ToBytes(), e0), "reader-leaves-encoding-unchanged")
 }
 
 // VerifC20Message: a message (relay = 1: a relay-forward wrapping it; 2, 3: a relay-forward holding
